@@ -143,6 +143,7 @@ Fixpoint copy_read (L : Z) (fs : list frame) (tl : rderr) : list ev * opres * li
       | FBad t size => ([Consume], OErr (e_size_exceeded (eff_limit L) size), rest)
       | FOver t size None => ([Consume], OErr (e_size_exceeded (eff_limit L) size), rest)
       | FOver t size (Some r) => ([Consume], rderr_res r, [])
+      | FTail => ([Consume], OErr e_unexpected_eof, [])
       | FMsg t body =>
           if Byte.eqb t x48 || Byte.eqb t x53 then          (* Flush, Sync: ignored *)
             let '(evs, r, rest') := copy_read L rest tl in (Consume :: evs, r, rest')
@@ -496,6 +497,7 @@ Definition cmd (c : cfg) (st : sst) (f : frame) (rest : list frame) (tl : rderr)
   : list ev * sst * list frame * cont :=
   match f with
   | FOver t size (Some _) => ([], st, [], Stop)
+  | FTail => ([], st, [], Stop)
   | FOver t size None | FBad t size =>
       let '(evs, st') := do_oversize c st t size in (evs, st', rest, Continue)
   | FMsg t body =>
